@@ -118,12 +118,12 @@ func runProgram(p qprog, src core.Source) *qrun {
 	if p.Observer > 0 {
 		s.Go("O", func() {
 			for k := 0; k < p.Observer; k++ {
-				switch k % 4 {
-				case 0:
-					r.call("O", "GetSize", 0, func(e *qevent) { e.Val = q.GetSize() })
-				case 1:
+				switch {
+				case k%2 == 0:
 					r.call("O", "AsArray", 0, func(e *qevent) { e.Arr = append([]int{}, q.AsArray()...) })
-				case 2:
+				case k%6 == 1:
+					r.call("O", "GetSize", 0, func(e *qevent) { e.Val = q.GetSize() })
+				case k%6 == 3:
 					r.call("O", "IsEmpty", 0, func(e *qevent) { e.OK = q.IsEmpty() })
 				default:
 					r.call("O", "Iterate", 0, func(e *qevent) {
@@ -411,6 +411,29 @@ func checkClauses(r *qrun) *core.Violation {
 				return core.Violate("C04/isempty-wrong", "IsEmpty reported true although at least %d values were present throughout the call\nhistory: %s", lo, historyString(r.events))
 			}
 		case "AsArray", "Iterate":
+			if !hasRemoveAll {
+				removesInvoked := 0
+				for _, e := range r.events {
+					if e.Op == "Remove" && e.Inv < o.Ret {
+						removesInvoked++
+					}
+				}
+				if removesInvoked == 0 {
+					for v, a := range added {
+						if a.Ret != 0 && a.Ret < o.Inv {
+							found := false
+							for _, x := range o.Arr {
+								if x == v {
+									found = true
+								}
+							}
+							if !found {
+								return core.Violate("C04/observer-misses-value", "%s does not show %d although Add(%d) had returned and nothing was removed\nhistory: %s", o.Op, v, v, historyString(r.events))
+							}
+						}
+					}
+				}
+			}
 			seen := map[int]bool{}
 			for i, v := range o.Arr {
 				a := added[v]
@@ -558,6 +581,7 @@ var fixedPrograms = []qprog{
 	{Name: "1p3v-1c1-cap1-noclose", Cap: 1, Producers: [][]int{{1, 2, 3}}, Consumers: []int{1}},
 	{Name: "1p2v-1c-cap1-observer", Cap: 1, Producers: [][]int{{1, 2}}, Consumers: []int{-1}, Closer: true, Observer: 2},
 	{Name: "1p1v-1c-cap1-observer4", Cap: 1, Producers: [][]int{{1}}, Consumers: []int{-1}, Closer: true, Observer: 4},
+	{Name: "1p2v-1c1-cap1-observer3", Cap: 1, Producers: [][]int{{1, 2}}, Consumers: []int{1}, Observer: 3},
 	{Name: "1p1v-1c-cap1-removeall", Cap: 1, Producers: [][]int{{1}}, Consumers: []int{-1}, Closer: true, RemoveAll: 1},
 	{Name: "1p2v-1c1-cap1-removeall", Cap: 1, Producers: [][]int{{1, 2}}, Consumers: []int{1}, RemoveAll: 1},
 	{Name: "1p2v-0c-cap2-removeall-observer", Cap: 2, Producers: [][]int{{1, 2}}, Consumers: []int{}, RemoveAll: 1, Observer: 2},
